@@ -1,18 +1,155 @@
 /-
   C03 — garbage collection is invisible to programs and exact about reachability.
-  (work in progress: collector theorems are added below)
+
+  Property theorems only. The model is `RsjModel/Gc.lean` (`collect` = the three phases of
+  `GcContext::gc`, literally, including the `Vec` order); helper lemmas are in
+  `RsjProofs/Gc*.lean`. All theorems hold for heaps of ANY size and shape; the only
+  hypotheses are the two representation invariants of `GcContext`
+    `WF G`    : object identities are pairwise distinct,
+    `Clean G` : every `GcBox` has `visits = 0` and `mark = false` between collections,
+  which hold initially, are re-established by every collection (`C03_collect_resets`,
+  `C03_collect_wf`) and are preserved by every driver operation (`C03_script_valid`).
 -/
-import RsjModel.Gc
+import RsjProofs.GcScript
 import RsjModel.GcTraceTable
 namespace Rsj.Gc
 
-/-- **Generated obligation.** For every struct / enum variant of `program/data.rs` that
+/-- **C03 collect_exact.** After a collection exactly the objects reachable from handles held
+    outside the heap (`GcView`s or `Gc` handles) survive, unchanged.
+    "→" is completeness (everything unreachable is reclaimed — also cyclic garbage, since
+    `Reach` only starts from outside handles); "←" is safety (nothing reachable is reclaimed). -/
+theorem C03_collect_exact {G : Heap} (hG : WF G) (hc : Clean G) (o : Obj) :
+    o ∈ collect G ↔ o ∈ G ∧ Reach G o.id :=
+  collect_exact hG hc o
+
+/-- Safety half, spelled out: no object the program can still reach is ever reclaimed. -/
+theorem C03_collect_safe {G : Heap} (hG : WF G) (hc : Clean G) {o : Obj} (ho : o ∈ G)
+    (hr : Reach G o.id) : o ∈ collect G ∧ find (collect G) o.id = some o := by
+  have hm := (collect_exact hG hc o).mpr ⟨ho, hr⟩
+  exact ⟨hm, find_of_mem (collect_wf hG hc) hm⟩
+
+/-- Completeness half, spelled out: an object that is not reachable from an outside handle
+    does not survive, whatever in-heap handles (cycles included) point to it. -/
+theorem C03_collect_complete {G : Heap} (hG : WF G) (hc : Clean G) {o : Obj}
+    (hr : ¬ Reach G o.id) : o ∉ collect G ∧ o.id ∉ ids (collect G) := by
+  refine ⟨fun h => hr ((collect_exact hG hc o).mp h).2, ?_⟩
+  intro h
+  obtain ⟨o', ho', hid⟩ := mem_ids.mp h
+  exact hr (hid ▸ ((collect_exact hG hc o').mp ho').2)
+
+/-- **C03 collect_resets.** Every survivor leaves the collection with `visits = 0` and
+    `mark = false` (no hypothesis needed), and identities stay distinct. -/
+theorem C03_collect_resets (G : Heap) : ∀ o ∈ collect G, o.visits = 0 ∧ o.mark = false :=
+  collect_clean G
+
+theorem C03_collect_wf {G : Heap} (hG : WF G) (hc : Clean G) : WF (collect G) :=
+  collect_wf hG hc
+
+/-- **C03 collect_idempotent.** A second collection frees nothing: same survivors, same
+    number of objects. -/
+theorem C03_collect_idempotent {G : Heap} (hG : WF G) (hc : Clean G) :
+    (∀ o, o ∈ collect (collect G) ↔ o ∈ collect G) ∧
+    (collect (collect G)).length = (collect G).length :=
+  collect_idempotent hG hc
+
+/-- **C03 baseline_returns.** A long-lived state `B` in which everything is live; the program
+    then allocates any number of further objects `N`, linked in any way (cycles, handles into
+    `B`), and finally drops its results: no outside handle to `N` is left and the objects of `B`
+    hold no handle into `N`. A collection then returns exactly to `B` — same objects, same
+    object count. -/
+theorem C03_baseline_returns {B N : Heap} (hG : WF (B ++ N)) (hc : Clean (B ++ N))
+    (hlive : ∀ o ∈ B, Reach B o.id)
+    (hdropped : ∀ o ∈ N, ¬ IsRoot o)
+    (hnolink : ∀ o ∈ B, ∀ j ∈ o.edges, j ∉ ids N) :
+    (∀ o, o ∈ collect (B ++ N) ↔ o ∈ B) ∧ (collect (B ++ N)).length = B.length :=
+  baseline_returns hG hc hlive hdropped hnolink
+
+/-- Special case: when nothing is held from outside, the heap becomes empty (`end#0`). -/
+theorem C03_drop_all_empties {G : Heap} (hG : WF G) (hc : Clean G)
+    (h : ∀ o ∈ G, o.ext = 0 ∧ o.views = 0) : collect G = [] :=
+  collect_no_roots hG hc h
+
+/-- The driver (= any client of `GcContext` that allocates, links, unlinks, takes and drops
+    handles/views and collects, in any order) only ever produces heaps satisfying the two
+    representation invariants, never hits "attempted to access destroyed object", and always
+    ends with `end#0`. -/
+theorem C03_script_valid (ops : List Op) :
+    ∃ out, runScript ops { heap := [], held := [] } [] = some out ∧ out.getLast? = some "end#0" :=
+  script_valid ops
+
+/-- **Generated obligation (from `program/data.rs`).** For every struct / enum variant that
     implements `GcTrace`, the fields visited by `trace` (with multiplicity) are exactly the
-    fields whose type carries a `Gc<..>` handle. -/
+    fields whose type carries a `Gc<..>` handle — i.e. for the real heap types the `edges` of
+    the model are exactly the in-heap handles. -/
 theorem C03_trace_covers_handles :
     gcTraceTable.all (fun e => e.handles == e.traced) = true := by decide
 
+/-- The table is not vacuous: it covers the heap types and some of them do carry handles. -/
+example : gcTraceTable.length ≥ 20 ∧ (gcTraceTable.filter (fun e => !e.handles.isEmpty)).length ≥ 10 := by
+  decide
+
+/-! ### Non-vacuity -/
+
+/-- A live 2-cycle (one outside handle) with a garbage 2-cycle hanging on it. -/
+def exampleHeap : Heap :=
+  [{ id := 0, edges := [1], views := 0, ext := 1, visits := 0, mark := false },
+   { id := 1, edges := [0], views := 0, ext := 0, visits := 0, mark := false },
+   { id := 2, edges := [3], views := 0, ext := 0, visits := 0, mark := false },
+   { id := 3, edges := [2, 0], views := 0, ext := 0, visits := 0, mark := false }]
+
+example : WF exampleHeap ∧ Clean exampleHeap := by
+  refine ⟨by unfold WF; decide, ?_⟩
+  unfold Clean exampleHeap; decide
+
+/-- the cycle 2 ⇄ 3 is reclaimed although neither object has weak count 0; 0 ⇄ 1 survives -/
+example : collect exampleHeap =
+    [{ id := 0, edges := [1], views := 0, ext := 1, visits := 0, mark := false },
+     { id := 1, edges := [0], views := 0, ext := 0, visits := 0, mark := false }] := by decide
+
+/-- a 2-cycle kept alive by a `GcView` only; dropping the view reclaims it -/
+example : (collect [{ id := 0, edges := [1], views := 1, ext := 0, visits := 0, mark := false },
+                    { id := 1, edges := [0], views := 0, ext := 0, visits := 0, mark := false }]).length = 2
+        ∧ collect [{ id := 0, edges := [1], views := 0, ext := 0, visits := 0, mark := false },
+                   { id := 1, edges := [0], views := 0, ext := 0, visits := 0, mark := false }] = [] := by
+  decide
+
+/-- `C03_baseline_returns` applies to `B = {0 ⇄ 1}`, `N = {2 ⇄ 3 → 0}`. -/
+example : ∃ B N : Heap, B ++ N = exampleHeap ∧ B.length = 2 ∧ N.length = 2 ∧
+    (∀ o ∈ B, Reach B o.id) ∧ (∀ o ∈ N, ¬ IsRoot o) ∧ (∀ o ∈ B, ∀ j ∈ o.edges, j ∉ ids N) := by
+  refine ⟨exampleHeap.take 2, exampleHeap.drop 2, rfl, rfl, rfl, ?_, ?_, ?_⟩
+  · intro o ho
+    have h0 : Reach (exampleHeap.take 2) 0 :=
+      Reach.root (o := { id := 0, edges := [1], views := 0, ext := 1, visits := 0, mark := false })
+        (by decide) (Or.inr (by decide))
+    have h1 : Reach (exampleHeap.take 2) 1 :=
+      Reach.step (o := { id := 0, edges := [1], views := 0, ext := 1, visits := 0, mark := false })
+        (by decide) h0 (by decide) (by decide)
+    have : o.id = 0 ∨ o.id = 1 := by
+      simp only [exampleHeap, List.take, List.mem_cons, List.mem_nil_iff, or_false] at ho
+      rcases ho with rfl | rfl <;> simp
+    rcases this with h | h <;> rw [h] <;> assumption
+  · unfold IsRoot exampleHeap; decide
+  · unfold ids exampleHeap; decide
+
 end Rsj.Gc
 
+open Rsj.Gc in
+#print axioms C03_collect_exact
+open Rsj.Gc in
+#print axioms C03_collect_safe
+open Rsj.Gc in
+#print axioms C03_collect_complete
+open Rsj.Gc in
+#print axioms C03_collect_resets
+open Rsj.Gc in
+#print axioms C03_collect_wf
+open Rsj.Gc in
+#print axioms C03_collect_idempotent
+open Rsj.Gc in
+#print axioms C03_baseline_returns
+open Rsj.Gc in
+#print axioms C03_drop_all_empties
+open Rsj.Gc in
+#print axioms C03_script_valid
 open Rsj.Gc in
 #print axioms C03_trace_covers_handles
